@@ -207,4 +207,98 @@ theorem prop_unique (L : List ℝ) (Hs : List (Matrix n n ℂ)) (hs : L.Pairwise
       exact (norm_mul_le _ _).trans (mul_le_mul_of_nonneg_right (norm_hamAt_le L Hs t) (norm_nonneg _))) x hx
   exact sub_eq_zero.mp this
 
+section
+variable {E : Type*} [NormedAddCommGroup E] [NormedSpace ℝ E]
+
+/-- Grönwall on an interval with the derivative only in the OPEN interval: `D` continuous on `[p, q]`, `D p = 0`,
+`‖D'‖ ≤ K‖D‖` on `(p, q)` ⇒ `D = 0` on `[p, q]` -/
+theorem eq_zero_of_deriv_le_open {D D' : ℝ → E} {K p q : ℝ} (hK : 0 ≤ K)
+    (hc : ContinuousOn D (Icc p q)) (h0 : D p = 0)
+    (hd : ∀ t ∈ Ioo p q, HasDerivAt D (D' t) t) (hb : ∀ t ∈ Ioo p q, ‖D' t‖ ≤ K * ‖D t‖) :
+    ∀ t ∈ Icc p q, D t = 0 := by
+  rcases le_or_gt q p with hqp | hpq
+  · intro t ht
+    have : t = p := le_antisymm (ht.2.trans hqp) ht.1
+    rw [this, h0]
+  have hopen : EqOn D (fun _ => (0 : E)) (Ioo p q) := by
+    intro t ht
+    have hC : 0 ≤ Real.exp (K * (t - p)) := (Real.exp_pos _).le
+    have hev : ∀ᶠ s in 𝓝[Ioo p t] p, ‖D t‖ ≤ ‖D s‖ * Real.exp (K * (t - p)) := by
+      filter_upwards [self_mem_nhdsWithin] with s hs
+      have hsub : Icc s t ⊆ Icc p q := Icc_subset_Icc hs.1.le ht.2.le
+      have := norm_le_gronwallBound_of_norm_deriv_right_le (f := D) (f' := D') (δ := ‖D s‖) (K := K) (ε := 0)
+        (a := s) (b := t) (hc.mono hsub)
+        (fun x hx => (hd x ⟨lt_of_lt_of_le hs.1 hx.1, lt_trans hx.2 ht.2⟩).hasDerivWithinAt) le_rfl
+        (fun x hx => by simpa using hb x ⟨lt_of_lt_of_le hs.1 hx.1, lt_trans hx.2 ht.2⟩) t ⟨hs.2.le, le_rfl⟩
+      rw [gronwallBound_ε0] at this
+      refine this.trans (mul_le_mul_of_nonneg_left ?_ (norm_nonneg _))
+      exact Real.exp_le_exp.mpr (mul_le_mul_of_nonneg_left (by linarith [hs.1]) hK)
+    have hcp : ContinuousWithinAt D (Ioo p t) p :=
+      (hc p ⟨le_rfl, hpq.le⟩).mono (fun x hx => ⟨hx.1.le, (hx.2.trans ht.2).le⟩)
+    have hlim : Tendsto (fun s => ‖D s‖ * Real.exp (K * (t - p))) (𝓝[Ioo p t] p) (𝓝 (‖D p‖ * Real.exp (K * (t - p)))) :=
+      (hcp.norm.tendsto).mul_const _
+    have := left_nhdsWithin_Ioo_neBot ht.1
+    have := ge_of_tendsto hlim hev
+    rw [h0, norm_zero, zero_mul] at this
+    exact norm_le_zero_iff.mp this
+  have := hopen.of_subset_closure hc continuousOn_const Ioo_subset_Icc_self (by rw [closure_Ioo hpq.ne])
+  intro t ht
+  exact this ht
+
+/-- the same with finitely many exceptional points inside the interval -/
+theorem eq_zero_of_deriv_le_off_finite {D D' : ℝ → E} {K : ℝ} (hK : 0 ≤ K) (F : Finset ℝ) :
+    ∀ p q : ℝ, ContinuousOn D (Icc p q) → D p = 0 →
+      (∀ t ∈ Ioo p q, t ∉ F → HasDerivAt D (D' t) t) → (∀ t ∈ Ioo p q, t ∉ F → ‖D' t‖ ≤ K * ‖D t‖) →
+      ∀ t ∈ Icc p q, D t = 0 := by
+  induction F using Finset.induction_on with
+  | empty =>
+    intro p q hc h0 hd hb
+    exact eq_zero_of_deriv_le_open hK hc h0 (fun t ht => hd t ht (by simp)) (fun t ht => hb t ht (by simp))
+  | insert x F hx ih =>
+    intro p q hc h0 hd hb
+    by_cases hxin : x ∈ Ioo p q
+    · have h1 := ih p x (hc.mono (Icc_subset_Icc_right hxin.2.le)) h0
+        (fun t ht hF => hd t ⟨ht.1, ht.2.trans hxin.2⟩ (by
+          rw [Finset.mem_insert, not_or]; exact ⟨ne_of_lt ht.2, hF⟩))
+        (fun t ht hF => hb t ⟨ht.1, ht.2.trans hxin.2⟩ (by
+          rw [Finset.mem_insert, not_or]; exact ⟨ne_of_lt ht.2, hF⟩))
+      have hx0 : D x = 0 := h1 x ⟨hxin.1.le, le_rfl⟩
+      have h2 := ih x q (hc.mono (Icc_subset_Icc_left hxin.1.le)) hx0
+        (fun t ht hF => hd t ⟨hxin.1.trans ht.1, ht.2⟩ (by
+          rw [Finset.mem_insert, not_or]; exact ⟨ne_of_gt ht.1, hF⟩))
+        (fun t ht hF => hb t ⟨hxin.1.trans ht.1, ht.2⟩ (by
+          rw [Finset.mem_insert, not_or]; exact ⟨ne_of_gt ht.1, hF⟩))
+      intro t ht
+      rcases le_total t x with h | h
+      · exact h1 t ⟨ht.1, h⟩
+      · exact h2 t ⟨h, ht.2⟩
+    · exact ih p q hc h0
+        (fun t ht hF => hd t ht (by
+          rw [Finset.mem_insert, not_or]; exact ⟨fun e => hxin (e ▸ ht), hF⟩))
+        (fun t ht hF => hb t ht (by
+          rw [Finset.mem_insert, not_or]; exact ⟨fun e => hxin (e ▸ ht), hF⟩))
+end
+
+
+/-- **uniqueness in the larger class**: a function continuous on `[a, b]` that has the (two-sided) derivative
+`−i H(t) V(t)` at every `t ∈ (a, b)` that is NOT a grid point, and starts at the value of the ordered product, is the
+ordered product on `[a, b]` — nothing is assumed at the grid points except continuity -/
+theorem prop_unique_off_grid (L : List ℝ) (Hs : List (Matrix n n ℂ)) (hs : L.Pairwise (· < ·)) (a b : ℝ)
+    (V : ℝ → Matrix n n ℂ) (hc : ContinuousOn V (Icc a b))
+    (hV : ∀ t ∈ Ioo a b, t ∉ L → HasDerivAt V ((-Complex.I) • (hamAt L Hs t * V t)) t)
+    (h0 : V a = prop L Hs a) : EqOn V (prop L Hs) (Icc a b) := by
+  intro x hx
+  have key := eq_zero_of_deriv_le_off_finite (D := fun s => V s - prop L Hs s)
+    (D' := fun t => (-Complex.I) • (hamAt L Hs t * (V t - prop L Hs t)))
+    (K := (Hs.map fun H => ‖H‖).sum) (List.sum_nonneg (by simp)) L.toFinset a b
+    (hc.sub (continuous_prop L Hs).continuousOn) (by simp [h0])
+    (fun t ht hF => by
+      have hF' : t ∉ L := fun h => hF (List.mem_toFinset.mpr h)
+      have := (hV t ht hF').sub ((hasDeriv_prop L Hs hs t).2 hF')
+      rwa [← smul_sub, ← mul_sub] at this)
+    (fun t _ _ => by
+      rw [norm_smul, norm_neg, Complex.norm_I, one_mul]
+      exact (norm_mul_le _ _).trans (mul_le_mul_of_nonneg_right (norm_hamAt_le L Hs t) (norm_nonneg _))) x hx
+  exact sub_eq_zero.mp key
+
 end QipVerif.TimeOrdered
